@@ -63,10 +63,13 @@ Accuses(e) ==
         /\ \/ e.claim.inc > e.pre.inc
            \/ (e.claim.inc = e.pre.inc /\ (e.claim.meta # e.pre.meta \/ e.claim.vsn # e.pre.vsn))
 
+\* "raises its incarnation strictly above the claim": the record AND the node's incarnation counter (what the next
+\* UpdateNode / Leave will draw from) - a record that runs ahead of the counter makes every later announcement stale
 C02_Refute(e) ==
   (IsNodeOp(e) /\ Accuses(e)) =>
      /\ e.post.state = "alive"
      /\ e.post.inc > e.claim.inc /\ e.post.inc > e.pre.inc
+     /\ e.incPost > e.claim.inc /\ e.incPost >= e.post.inc
      /\ \E i \in DOMAIN e.bcast : /\ e.bcast[i].type = "alive" /\ e.bcast[i].node = e.n
                                   /\ e.bcast[i].inc = e.post.inc
 
